@@ -137,8 +137,11 @@ def build_app(seed):
         fbase = Fault
         if faults and r.random() < .4:
             fbase = r.choice(faults)       # fault inheritance
-        faults.append(type('Err%d' % i, (fbase,),
-                           {'__namespace__': r.choice(nss)}))
+        fns = {'__namespace__': r.choice(nss)}
+        if types and r.random() < .4:
+            # a fault carrying a member of a type from some other namespace
+            fns['_type_info'] = [('info%d' % i, r.choice(types))]
+        faults.append(type('Err%d' % i, (fbase,), fns))
     headers = []
     for i in range(r.randint(0, 3)):
         # now and then two header classes share ONE name in two namespaces
@@ -154,14 +157,26 @@ def build_app(seed):
     summary = {'services': 0, 'methods': 0, 'namespaces': len(nss),
                'types': len(types), 'faults': len(faults),
                'headers': len(headers), 'bare': 0, 'custom_names': 0,
-               'port_types': 0, 'throws': 0, 'methods_list': []}
+               'port_types': 0, 'throws': 0, 'methods_list': [],
+               'bare_ns_msg': 0}
     services = []
     used_names = set()
     for si in range(r.randint(1, 3)):
         ns = {}
         use_ports = r.random() < .25
         ports = ['Port%dA' % si, 'Port%dB' % si] if use_ports else None
-        if use_ports:
+        if use_ports and r.random() < .4:
+            ports[1] = 'PortShared'     # several services, one port type
+        sbase = Service
+        if services and r.random() < .2:
+            # service inheritance: methods and __port_types__ are inherited
+            sbase = services[-1]
+            inherited = getattr(sbase, '__port_types__', None)
+            if inherited and not use_ports:
+                # (spyne insists on a _port_type for every method then)
+                use_ports = 'inherited'
+                ports = list(inherited)
+        if use_ports is True:
             ns['__port_types__'] = tuple(ports)
             summary['port_types'] += 2
         if headers and r.random() < .5:
@@ -181,6 +196,10 @@ def build_app(seed):
                 args = [r.choice(types)]
                 kw['_body_style'] = 'bare'
                 summary['bare'] += 1
+                if r.random() < .12 and len(nss) > 1:
+                    # a bare message named into a namespace of its own choice
+                    kw['_in_message_name'] = '{%s}In%s' % (nss[1], name)
+                    summary['bare_ns_msg'] += 1
             else:
                 args = []
                 for _ in range(r.randint(0, 3)):
@@ -225,7 +244,7 @@ def build_app(seed):
             ns[name] = rpc(*args, **kw)(d[name])
             summary['methods'] += 1
             summary['methods_list'].append(kw.get('_operation_name', name))
-        services.append(type('Svc%d' % si, (Service,), ns))
+        services.append(type('Svc%d' % si, (sbase,), ns))
         summary['services'] += 1
     app = Application(services, tns, name='C07App', in_protocol=Soap11(),
                       out_protocol=Soap11())
@@ -242,15 +261,28 @@ def wsdl_variants(seed):
     from sim.gateway import call_wsgi
     from sim.universe import wsdl_request
     app, services, summary = build_app(seed)
-    w = WsgiApplication(app)
-    o = call_wsgi(w, wsdl_request())
-    lazy = o.body if o.exc is None else ('EXC:%r' % o.exc).encode()
-    app2 = Application(services, app.tns, name='C07App', in_protocol=Soap11(),
-                       out_protocol=Soap11())
-    w2 = WsgiApplication(app2)
-    w2.doc.wsdl11.build_interface_document('http://sim.invalid/')
-    direct = w2.doc.wsdl11.get_interface_document()
+    # from here on the application has been accepted
+    try:
+        w = WsgiApplication(app)
+        o = call_wsgi(w, wsdl_request())
+        lazy = o.body if o.exc is None else ('EXC:%r' % o.exc).encode()
+        app2 = Application(services, app.tns, name='C07App',
+                           in_protocol=Soap11(), out_protocol=Soap11())
+        w2 = WsgiApplication(app2)
+        w2.doc.wsdl11.build_interface_document('http://sim.invalid/')
+        direct = w2.doc.wsdl11.get_interface_document()
+    except Exception as e:
+        raise BuildFailed(e, summary)
+    if not (o.status or '').startswith('200'):
+        raise BuildFailed(RuntimeError('?wsdl answered %s' % o.status),
+                          summary)
     return lazy, direct, summary
+
+
+class BuildFailed(Exception):
+    def __init__(self, exc, summary):
+        Exception.__init__(self, '%s: %s' % (type(exc).__name__, exc))
+        self.exc, self.summary = exc, summary
 
 
 def child_main(app_seeds, pad):
@@ -263,6 +295,8 @@ def child_main(app_seeds, pad):
             lazy, direct, summary = wsdl_variants(s)
             out[str(s)] = [hashlib.sha256(lazy).hexdigest(),
                            hashlib.sha256(direct).hexdigest()]
+        except BuildFailed as e:
+            out[str(s)] = ['BUILD-FAILED', type(e.exc).__name__]
         except Exception as e:
             out[str(s)] = ['REJECTED', type(e).__name__]
     json.dump(out, sys.stdout)
@@ -433,6 +467,14 @@ def run_case(case):
     for s in case['app_seeds']:
         try:
             lazy, direct, summary = wsdl_variants(s)
+        except BuildFailed as e:
+            pre = 'bare-ns-message|' if e.summary.get('bare_ns_msg') else ''
+            V.append({'sig': pre + 'build-failed' + ('' if pre else
+                             '|' + type(e.exc).__name__),
+                      'what': 'app %d was accepted by Application() but no '
+                      'WSDL can be built for it: %s' % (s, str(e)[:200])})
+            mine[str(s)] = ['BUILD-FAILED', type(e.exc).__name__]
+            continue
         except Exception as e:
             mine[str(s)] = ['REJECTED', type(e).__name__]
             continue
@@ -440,12 +482,20 @@ def run_case(case):
                         hashlib.sha256(direct).hexdigest()]
         summaries[s] = summary
         docs[s] = lazy
+        # (known finding: bare body style + message name in a namespace of
+        # its own; everything such an application shows is filed under it)
+        bare_ns = bool(summary.get('bare_ns_msg'))
+        pre = 'bare-ns-message|' if bare_ns else ''
         if lazy != direct:
-            V.append({'sig': 'nondeterministic|repetition',
+            V.append({'sig': pre + ('nondeterministic' if pre else
+                                    'nondeterministic|repetition'),
                       'what': 'app %d: ?wsdl bytes differ from a direct build '
                       'on a second Application over the same classes (%s)' % (
                           s, _first_diff(lazy, direct))})
         for sig, what in check_document(lazy, summary):
+            if bare_ns and sig.split('|')[0] in ('closure', 'unresolved',
+                                                 'malformed'):
+                sig = pre + sig.split('|')[0]
             V.append({'sig': sig, 'what': 'app %d: %s' % (s, what)})
     fired = {'hash_seed': 0, 'heap_pad': 0, 'build_repetition':
              len(summaries)}
